@@ -1,4 +1,5 @@
 import VtProofs.VplTyped
+import VtProofs.VplTotal
 /-!
 # C18 — every well-formed pipeline text parses to the pipeline it describes
 
@@ -144,6 +145,17 @@ theorem bad_parameters_fail_pipeline (name : Str) (props : List (Str × List Str
 theorem bad_parameters_fail_transform (fmt name : Str) (props : List (Str × List Str)) (sources : List (List Node))
     (rest : List Node) (o : OpSig) (h : findOp false name = some o) (hd : decodeOk props o.fields = false) :
     buildTail fmt (.mk name props sources :: rest) = none := build_tran_decode fmt name props sources rest o h hd
+
+/-! ## totality of the model (the statement C19 relies on for the VPL entry point) -/
+
+/-- for **every** text the verdict of the parser model is a pipeline or an error: the recursion fuel
+    (text length + 1) never runs out, there is no third outcome and nothing that could panic -/
+theorem verdict_total (s : Str) : (∃ p, parseVpl s = .ok p) ∨ parseVpl s = .err := by
+  have h := parseVpl_ne_oof s
+  cases hv : parseVpl s with
+  | ok p => exact Or.inl ⟨p, rfl⟩
+  | err => exact Or.inr rfl
+  | oof => rw [hv] at h; exact h.elim
 
 /-! ## non-vacuity: a concrete written pipeline, its text, its well-formedness
 
